@@ -427,7 +427,7 @@ class Driver:
             binds = any(t in s.env for t in tnames) or any(isinstance(n, ast.Name) and n.id in tnames and isinstance(n.ctx, ast.Load) and id(n) not in inside and id(n) not in rebound and getattr(n, "lineno", 0) > st.lineno for n in ast.walk(func.node))
             if not binds and (_effect_free(st.body) or _flush_loop(st, s)):
                 return [s]
-            if (not st.orelse and isinstance(st.target, ast.Tuple) and len(st.target.elts) == 2 and all(isinstance(e, ast.Name) for e in st.target.elts)
+            if (isinstance(st.target, ast.Tuple) and len(st.target.elts) == 2 and all(isinstance(e, ast.Name) for e in st.target.elts)
                     and isinstance(st.iter, ast.Call) and isinstance(st.iter.func, ast.Name) and st.iter.func.id == "enumerate" and len(st.iter.args) == 1
                     and isinstance(st.iter.args[0], ast.Name) and not st.iter.keywords):
                 # for I, T in enumerate(SEQ): BODY  ==  i = 0 ; while i < len(SEQ): I = i ; T = SEQ[i] ; i += 1 ; BODY
@@ -440,8 +440,9 @@ class Driver:
                     ast.copy_location(n, st)
                 wl = mod.body[1]
                 wl.body = wl.body[:-1] + list(st.body)
+                wl.orelse = list(st.orelse)
                 return self.block(mod.body, [s], func)
-            if not st.orelse and isinstance(st.target, ast.Name) and isinstance(st.iter, ast.Name):
+            if isinstance(st.target, ast.Name) and isinstance(st.iter, ast.Name):
                 # for T in SEQ: BODY   ==   i = 0 ; while i < len(SEQ): T = SEQ[i] ; i += 1 ; BODY    (break leaves the loop)
                 self._forvar = getattr(self, "_forvar", 0) + 1
                 iv = "__for%d" % self._forvar
@@ -451,10 +452,11 @@ class Driver:
                     ast.copy_location(n, st)
                 wl = mod.body[1]
                 wl.body = wl.body[:-1] + list(st.body)
+                wl.orelse = list(st.orelse)
                 return self.block(mod.body, [s], func)
             # for T in range(len(SEQ)) / np.arange(len(SEQ)) / range(N):   T = 0 ; while T < N: BODY ; T += 1
             it = st.iter
-            if (not st.orelse and isinstance(st.target, ast.Name) and isinstance(it, ast.Call) and len(it.args) == 1 and not it.keywords
+            if (isinstance(st.target, ast.Name) and isinstance(it, ast.Call) and len(it.args) == 1 and not it.keywords
                     and ((isinstance(it.func, ast.Name) and it.func.id == "range") or (isinstance(it.func, ast.Attribute) and it.func.attr == "arange"))
                     and not any(isinstance(n, ast.Name) and n.id == st.target.id and isinstance(n.ctx, ast.Store) for b in st.body for n in ast.walk(b))
                     and not any(isinstance(n, ast.Continue) for b in st.body for n in ast.walk(b))):
@@ -472,6 +474,7 @@ class Driver:
                 wl = mod.body[2]
                 # `break` leaves before the increment -- the counter is not read afterwards
                 wl.body = [wl.body[0]] + list(st.body) + [wl.body[2]]
+                wl.orelse = list(st.orelse)
                 return self.block(mod.body, [s], func)
             raise AnalysisError("%s:%d unsupported for loop" % (func.qualname, st.lineno))
         raise AnalysisError("%s:%d unsupported statement %s" % (func.qualname, st.lineno, type(st).__name__))
@@ -488,7 +491,11 @@ class Driver:
             for s1 in cur:
                 for s2, c in self.evalf(st.test, s1, func):
                     for s3 in self.assume(s2.fork(), c, False):
-                        out.append(s3)
+                        # the condition became false: the `else:` clause of the loop runs (not after a `break`)
+                        if st.orelse:
+                            out.extend(self.block(st.orelse, [s3], func))
+                        else:
+                            out.append(s3)
                     if it < unroll:
                         for s3 in self.assume(s2, c, True):
                             nxt.extend(x for x in self.block(st.body, [s3], func))
